@@ -8,10 +8,10 @@ Definition P_OUT : path := 1.
 Definition P_CYBORG : path := 2.
 Definition P_LOG : path := 3.
 
-(* path / stdout classes: 0 fine, 1 File::create fails, 2 every write fails (ENOSPC),
-   3 every write fails with a broken pipe *)
+(* path / stdout classes: 0 fine, 1 File::create fails, 2 every write fails at once (ENOSPC),
+   3 the reader of the pipe / FIFO goes away (broken pipe), 4 writes fail after some bytes (EFBIG) *)
 Definition res_of_class (c : Z) : io_res :=
-  if c =? 2 then IoErr else if c =? 3 then IoBrokenPipe else IoOk.
+  if (c =? 2) || (c =? 4) then IoErr else if c =? 3 then IoBrokenPipe else IoOk.
 Definition mk_env (cls : path -> Z) (stdout_cls : Z) (read process : bool) : env :=
   {| e_create := fun p => if cls p =? 1 then IoErr else IoOk;
      e_read := read;
@@ -19,7 +19,11 @@ Definition mk_env (cls : path -> Z) (stdout_cls : Z) (read process : bool) : env
      e_write := fun w _ => match w with
                            | Stdout => res_of_class stdout_cls
                            | File p => res_of_class (cls p)
-                           end |}.
+                           end;
+     e_partial := fun w _ => match w with
+                             | Stdout => (stdout_cls =? 3) || (stdout_cls =? 4)
+                             | File p => (cls p =? 3) || (cls p =? 4)
+                             end |}.
 
 Definition writer_eqb (a b : writer) : bool :=
   match a, b with
@@ -28,25 +32,29 @@ Definition writer_eqb (a b : writer) : bool :=
   | _, _ => false
   end.
 
-(* renderer codes: 1 human, 2 brief human, 3 json, 4 pretty json, 5 dump, 6 brief dump, 7 help; 99 = failed write *)
+(* renderer codes: 1 human, 2 brief human, 3 json, 4 pretty json, 5 dump, 6 brief dump, 7 help;
+   99 = a failed write that left nothing, 100 + code = a failed write that left a prefix of that rendering *)
 Definition renderer_code (r : renderer) : Z :=
   match r with
   | Human => 1 | HumanBrief => 2 | Json false => 3 | Json true => 4
   | Dump => 5 | DumpBrief => 6 | HelpDoc => 7
   end.
 
-Fixpoint sink_content (tr : list event) (w : writer) : list Z :=
+Fixpoint sink_content (e : env) (tr : list event) (w : writer) : list Z :=
   match tr with
   | [] => []
-  | Written w' r :: tr' => if writer_eqb w w' then renderer_code r :: sink_content tr' w else sink_content tr' w
-  | WriteFailed w' r :: tr' => if writer_eqb w w' then 99 :: sink_content tr' w else sink_content tr' w
-  | _ :: tr' => sink_content tr' w
+  | Written w' r :: tr' => if writer_eqb w w' then renderer_code r :: sink_content e tr' w else sink_content e tr' w
+  | WriteFailed w' r :: tr' =>
+      if writer_eqb w w'
+      then (if e_partial e w' r then 100 + renderer_code r else 99) :: sink_content e tr' w
+      else sink_content e tr' w
+  | _ :: tr' => sink_content e tr' w
   end.
 Definition created (tr : list event) (p : path) : bool :=
   existsb (fun ev => match ev with Create q => p =? q | _ => false end) tr.
 (* -1 = the file does not exist afterwards *)
-Definition file_state (tr : list event) (p : path) : list Z :=
-  if created tr p then sink_content tr (File p) else [-1].
+Definition file_state (e : env) (tr : list event) (p : path) : list Z :=
+  if created tr p then sink_content e tr (File p) else [-1].
 
 Definition has_diag (tr : list event) (c : channel) : bool :=
   existsb (fun ev => match ev, c with Diag Logger, Logger => true | Diag Stderr, Stderr => true | _, _ => false end) tr.
@@ -66,9 +74,9 @@ Definition observe (f : flags) (e : env) : observation :=
   let '(tr, code) := run f e in
   let logger_visible := negb (f_verbose_off f) in
   {| o_exit := code;
-     o_stdout := sink_content tr Stdout;
-     o_out := file_state tr P_OUT;
-     o_cyborg := file_state tr P_CYBORG;
+     o_stdout := sink_content e tr Stdout;
+     o_out := file_state e tr P_OUT;
+     o_cyborg := file_state e tr P_CYBORG;
      o_log := if created tr P_LOG then [] else [-1];
      o_stderr_diag := has_diag tr Stderr || (has_diag tr Logger && logger_visible && negb (is_some (f_log_file f)));
      o_log_diag := has_diag tr Logger && logger_visible && is_some (f_log_file f) && created tr P_LOG;
